@@ -31,8 +31,11 @@ def digest_fit(spec, fam, bdf, rdf, reuse=None, later=None):
     m = fam.new_model(seed=spec["mseed"])
     if reuse is not None:
         # the model object was used for another meter before (fit + predict)
-        fam.fit(m, fam.baseline_data(reuse[0].copy(deep=True)))
-        fam.predict(m, fam.reporting_data(reuse[1].copy(deep=True)))
+        try:
+            fam.fit(m, fam.baseline_data(reuse[0].copy(deep=True)))
+            fam.predict(m, fam.reporting_data(reuse[1].copy(deep=True)))
+        except Exception:
+            pass            # the other meter's own failure is not judged here (a meter the family cannot fit at all: C04's business)
     try:
         m = fam.fit(m, data)
         if later is not None:
